@@ -95,8 +95,9 @@ def step (st : St) (line : String) : IO St := do
     IO.println s!"ORACLE C18 a grid written by writeToFile could not be loaded: {line.trimAscii}"
     return { st with oracleFails := st.oracleFails + 1 }
   | "BADFILE" :: what :: res :: _ =>
-    let shouldAccept := what == "good" ∨ what == "good-two-radii"
-    let ok := (res == "accepted") == shouldAccept
+    let shouldAccept := what == "good" ∨ what == "good-two-radii" ∨ what == "vector-good"
+    -- `throw-not-needed`: the generated grid happened to be strictly increasing, so accepting it is right
+    let ok := res == "throw-not-needed" ∨ (res == "accepted") == shouldAccept
     let mut st := st
     if !ok then
       IO.println s!"ORACLE C18 malformed grid file `{what}`: outcome `{res}`"
